@@ -243,6 +243,7 @@ class P(Prop):
         (M, "TV.C16.vw_threshold", "T10 (threshold semantics; ANY arithmetic on a linear order since this pass -- the areas are the COMPUTED ones, so it is a statement about the float run away from NaN): under T6's hypothesis every interior fix of Visvalingam's result spans with its two neighbours in the result a triangle of area > eps^2 (the '@aire' column stays consistent with the current neighbours; ARGMIN designates a smallest entry)"),
         (M, "TV.C16.vw_any_tiebreak_sublist", "T13 (the freedom left by ties in Visvalingam; no hypothesis at all): whichever of several equally small triangles is eliminated at each pass (VwAnyResult: all such runs; the code takes ARGMIN's first minimum), the result is a sub-sequence of the input observations; any scalar type, any areas"),
         (M, "TV.C16.vw_any_tiebreak", "T13: under T6's hypothesis (finite areas) every such run keeps the first and the last observation and >= 2 observations; any scalar type, any tolerance"),
+        (M, "TV.C16.vw_any_tiebreak_any_areas", "T13 without hypothesis (T12 for every run): whatever the areas and whichever of the equally small triangles goes first, sub-sequence, LAST observation kept, >= 2 observations of >= 2; any scalar type"),
         (M, "TV.C16.vw_own_run_is_tiebreak_run", "T13: what visvalingam returns (first minimum at every pass) is one of these runs; no hypothesis"),
         (M, "TV.C16.vw_all_levels_sound", "T13: every result of visvalingamAll -- the driver's level-by-level enumeration (states with the same observations merged, given up beyond `cap` states per level) that the correspondence check accepts for Visvalingam -- is such a run"),
         (M, "TV.C16.vw_any_tiebreak_threshold", "T10 for every run of T13 (any arithmetic on a linear order, T6's hypothesis): every interior fix of the result spans with its neighbours in the result a triangle of computed area > eps^2"),
